@@ -44,7 +44,7 @@ BodiesAndOr ==
   \cup {OrG(<<l1, l2, l3>>) : l1 \in LitsC, l2 \in LitsC, l3 \in LitsC}
   \cup {AndG(<<l1, l2, l3>>) : l1 \in LitsB, l2 \in LitsC, l3 \in LitsB}
 BodiesSmall ==
-       {Call(q1(X)), Call(r1(X)), UnifyG(X, b)}
+       {Call(q1(X)), Call(r1(X)), UnifyG(X, b), Bip("equal", <<X, b>>), Bip("less_than", <<X, b>>)}
   \cup {AndG(<<l1, l2>>) : l1 \in LitsC, l2 \in LitsC}
   \cup {OrG(<<l1, l2>>) : l1 \in LitsC, l2 \in LitsC}
 HeadsP == {p1(X), p1(b), p1(Cx("f", <<X>>))}
@@ -56,7 +56,7 @@ PQ(pg, qs) == {[prog |-> pg, query |-> qq] : qq \in qs}
 PQS(pgs, qs) == {[prog |-> pg, query |-> qq] : pg \in pgs, qq \in qs}
 ProgsAndOr ==
        PQS({BaseFacts \o <<c1_>> : c1_ \in ClausesAndOr1}, QueriesP)
-  \cup PQS({BaseFacts \o <<c1_, c2_>> : c1_ \in ClausesAndOr2, c2_ \in ClausesAndOr2}, {p1(Z)})
+  \cup PQS({BaseFacts \o <<c1_, c2_>> : c1_ \in ClausesAndOr2, c2_ \in ClausesAndOr2}, {p1(Z), p1(a), p1(c)})
   \cup (IF Thorough
         THEN PQS({BaseFacts \o <<c1_, c2_, c3_>> :
                        c1_ \in ClausesAndOr2, c2_ \in {Fact(p1(a)), Clause(p1(X), Call(r1(X))), Clause(p1(X), OrG(<<Call(q1(X)), UnifyG(X, c)>>))},
